@@ -43,20 +43,24 @@ import (
 // pool used for arity 3.
 var c17Pool = []string{
 	"''", "a", `"\xff"`, "-1", "0", "1",
-	"[a]", "$nil", "{|x| }", "4611686018427387904",
+	"[a]", "$nil", "{|x| }", "4611686018427387904", "é",
 	// --- end of the small pool ---
+	// strings whose byte length and rune count differ (2, 3, 4 bytes; an
+	// invalid 2-byte sequence), alone and inside lists
+	"好", "𝄞", `"\xff\xfe"`, "[é]", "[[a b] é]",
 	"(num NaN)", "d/f", "(num 9223372036854775808)", "1e400", "(num +Inf)", "(num -Inf)", "(num -0.0)", "(num 1/3)",
 	"[]", "[&]", "[&a=b]", "$true", "{ }", "$nop~", "$fl", "1_000", "9223372036854775807",
 }
 
-const c17SmallPoolN = 10
+const c17SmallPoolN = 11
 
 // Pool values left out of the arity-2 tuples in the quick tier.
-var c17QuickPool2Drop = map[string]bool{"(num -Inf)": true, "[&]": true, "{ }": true, "$true": true, "1_000": true, "(num 1/3)": true}
+var c17QuickPool2Drop = map[string]bool{"(num -Inf)": true, "[&]": true, "{ }": true, "$true": true, "1_000": true, "(num 1/3)": true,
+	"好": true, "𝄞": true, "(num -0.0)": true, "[]": true, "$nop~": true}
 
 // Extra values of the thorough tier (arity <= 2).
 var c17PoolThorough = []string{
-	`"a\x00b"`, "-9223372036854775808", "(num 1e308)", "é", "[a b c]", "(num 0x10000000000000000/3)", "0x7fffffff",
+	`"a\x00b"`, "-9223372036854775808", "(num 1e308)", "[a b c]", "(num 0x10000000000000000/3)", "0x7fffffff",
 }
 
 // Positional stand-ins used while one option at a time is set to a pool value.
@@ -784,6 +788,7 @@ type c17Cmd struct {
 	name    string   // as written in source, e.g. "str:repeat"
 	opts    []string // declared option names
 	nreq    int      // declared number of required positional parameters (-1 unknown)
+	inputs  bool     // documented with an optional trailing parameter (inputs?)
 	special bool
 }
 
@@ -815,7 +820,9 @@ func c17ReadDecls(repo string) map[string]c17Cmd {
 					if n != "" && !strings.ContainsAny(n, "()$'") {
 						cmd.opts = append(cmd.opts, n)
 					}
-				case strings.HasPrefix(p, "@"), strings.HasSuffix(p, "?"), strings.Contains(p, "="),
+				case strings.HasSuffix(p, "?"):
+					cmd.inputs = true
+				case strings.HasPrefix(p, "@"), strings.Contains(p, "="),
 					strings.HasPrefix(p, "("), strings.HasSuffix(p, ")"):
 					// rest, optional, defaulted parameters; pieces of a default value like (num +inf)
 				default:
@@ -854,7 +861,7 @@ func c17Commands(c *vk.Ctx, repo string) (cmds []c17Cmd, variables []string, mod
 			name := prefix + strings.TrimSuffix(n, "~")
 			cmd := c17Cmd{name: name, nreq: -1}
 			if d, ok := decls[name]; ok {
-				cmd.opts, cmd.nreq = d.opts, d.nreq
+				cmd.opts, cmd.nreq, cmd.inputs = d.opts, d.nreq, d.inputs
 			}
 			if cl, ok := ns.IndexString(n).Get().(*eval.Closure); ok {
 				cmd.opts = append([]string{}, cl.OptNames...)
@@ -1038,6 +1045,28 @@ func TestVerifC17(t *testing.T) {
 				}
 			}
 		})
+		// Section P: each pool value fed through the input pipe: `put v | cmd`
+		// for every command, and `put v | cmd <stand-ins>` for the commands
+		// documented with an optional trailing inputs parameter.
+		secP := section(func() {
+			for _, cmd := range cmds {
+				if cmd.special {
+					continue
+				}
+				for _, p := range pool {
+					pre := "put " + p + " | "
+					if why := c17Skip(cmd.name, nil); why != "" {
+						continue
+					}
+					g.cases = append(g.cases, c17Case{'E', c17UsePrefix(cmd.name) + pre + cmd.name, "P/" + cmd.name + "/0"})
+					if cmd.inputs && cmd.nreq >= 1 && cmd.nreq <= 2 {
+						c17Tuples(c17Stand, cmd.nreq, func(args []string) {
+							g.cases = append(g.cases, c17Case{'E', c17UsePrefix(cmd.name) + pre + cmd.name + " " + strings.Join(args, " "), "P/" + cmd.name + "/" + fmt.Sprint(cmd.nreq)})
+						})
+					}
+				}
+			}
+		})
 		// Section O: each declared option set to each pool value, one at a time,
 		// with the documented number of positional arguments drawn from stand-ins.
 		nOpts := 0
@@ -1139,13 +1168,13 @@ func TestVerifC17(t *testing.T) {
 			}
 		})
 		g.cases = nil
-		for _, sec := range [][]c17Case{secA01, secV, secO, secR1, secC, secA2, secA3, secR2} {
+		for _, sec := range [][]c17Case{secA01, secV, secP, secO, secR1, secC, secA2, secA3, secR2} {
 			g.cases = append(g.cases, sec...)
 		}
-		nA, nA3, nV, nO, nR, nC := len(secA01)+len(secA2), len(secA3), len(secV), len(secO), len(secR1)+len(secR2), len(secC)
+		nA, nA3, nV, nO, nR, nC := len(secA01)+len(secA2), len(secA3), len(secV)+len(secP), len(secO), len(secR1)+len(secR2), len(secC)
 
 		c.Rule(fmt.Sprintf("A: every one of %d commands (all functions of the builtin namespace, of the modules %v and the %d special forms; denylist: exit, exec, long sleeps, 'while <true> { }') x every argument tuple of arity 0..1 over the %d-value pool %q and of arity 2 over %d of these values%s, written as source text; "+
-			"V: every one of %d variables of those namespaces read, and assigned each pool value; "+
+			"V: every one of %d variables of those namespaces read, and assigned each pool value; P: each pool value fed through the input pipe ('put v | cmd') to every command, and with stand-in arguments to the commands documented with an optional inputs parameter; "+
 			"O: each of %d documented options (pkg/**/*.d.elv, closures: their own option list) set to each pool value, one at a time, with the documented number of positional arguments drawn from %q; "+
 			"R: %d commands x every redirection dst in %q, op in %q, source in %q, and %d commands x every pair of redirections over %d redirections; "+
 			"C: Evaler.Check on every string of <=3 tokens over the %d-token alphabet %q joined with ' ' (pairs also with '')%s. "+
@@ -1160,7 +1189,7 @@ func TestVerifC17(t *testing.T) {
 			"a case that blocks all goroutines is recognised by the Go runtime's deadlock detector of the worker (built without cgo: "+detector+"); any other case silent for 20 s is killed and run a second time in a fresh worker process; silent again with every thread asleep and no CPU time consumed => reported as a hang; silent again while consuming CPU => inconclusive (busy), not a violation; a worker in which a finished case left goroutines behind is replaced",
 			"out-of-memory and allocation-size fatal errors, and endless value output (cut off after 131072 values), are counted as inconclusive-resource, not as violations",
 			"not covered: external commands, the edit:, store: and daemon: modules, values outside the pool, arity > 2 (thorough: > 3), several options at once")
-		c.Set("cases_by_section", map[string]int{"A_args": nA, "A_arity3": nA3, "V_variables": nV, "O_options": nO, "R_redirections": nR, "C_check": nC})
+		c.Set("cases_by_section", map[string]int{"A_args": nA, "A_arity3": nA3, "V_variables": len(secV), "P_piped_input": len(secP), "O_options": nO, "R_redirections": nR, "C_check": nC})
 		c.Set("denylist_skipped", g.skipped)
 		c.Set("bounds", map[string]int{"commands": len(cmds), "variables": len(variables), "pool": len(pool), "options": nOpts, "redir_full": len(full), "redir_pairs_alphabet": len(two), "tokens": len(c17Tokens)})
 
